@@ -17,9 +17,7 @@ Inductive op :=
 | OGet (k : key) (r : gres)
 | OIter (start : key) (end_ : option key) (rv : bool) (iops : list (iop * ires)).
 
-(** [guarded = true]: the generator promises that the case stays inside the
-    guards of the [_partial] theorems; no known-finding code is ever given. *)
-Inductive case := Case (b : backend) (guarded : bool) (ops : list op).
+Inductive case := Case (b : backend) (ops : list op).
 
 Definition ires_eqb (a b : ires) : bool :=
   match a, b with
@@ -37,34 +35,8 @@ Definition gres_eqb (a b : gres) : bool :=
 Definition gres_of (o : option val) : gres :=
   match o with Some v => GFound v | None => GNotFound end.
 
-Definition is_badger (b : backend) : bool :=
-  match b with BBadger => true | _ => false end.
-
-(** Known findings (known_findings/C06.json), Badger wrapper only.
-    code 1: a stored key equals the iterator's exclusive end bound and the
-            implementation is positioned exactly on that entry;
-    code 2: Seek with an empty target or a target outside [start, end): the
-            implementation does not clamp to the range (reports "not valid",
-            or treats the empty target as Rewind). *)
-Definition classify (b : backend) (guarded : bool) (sm : store) (start : key)
-    (end' : option key) (LS : list entry) (o : iop) (r : ires) : N :=
-  if guarded || negb (is_badger b) then 0%N
-  else
-    let c1 := match end' with
-              | Some e => match get e sm with
-                          | Some v => ires_eqb r (true, true, e, v)
-                          | None => false
-                          end
-              | None => false
-              end in
-    let c2 := match o with
-              | ISeek k =>
-                  (match k with [] => true | _ => negb (in_range (Some start) end' k) end)
-                  && (ires_eqb r (false, false, [], []) || ires_eqb r (spec_obs LS))
-              | _ => false
-              end in
-    if c1 then 1%N else if c2 then 2%N else 0%N.
-
+(** No finding of this property is open: a spec divergence never gets a
+    known-finding code (the third component of the verdict stays 0). *)
 Fixpoint model_rest (s : it_state) (iops : list (iop * ires)) : bool :=
   match iops with
   | [] => true
@@ -72,8 +44,7 @@ Fixpoint model_rest (s : it_state) (iops : list (iop * ires)) : bool :=
   end.
 
 Section Iter.
-Variables (b : backend) (guarded : bool) (sm : store) (start : key) (end' : option key)
-          (rv : bool) (LS : list entry).
+Variables (rv : bool) (LS : list entry).
 
 Fixpoint chk_iops (s : it_state) (p : spec_pos) (iops : list (iop * ires)) : verdict :=
   match iops with
@@ -85,18 +56,17 @@ Fixpoint chk_iops (s : it_state) (p : spec_pos) (iops : list (iop * ires)) : ver
       let so := match p' with None => true | Some l => ires_eqb (spec_obs l) r end in
       if so then
         match chk_iops s' p' tl with (m2, s2, c2) => (mo && m2, s2, c2) end
-      else (mo && model_rest s' tl, false, classify b guarded sm start end' LS o r)
+      else (mo && model_rest s' tl, false, 0%N)
   end.
 End Iter.
 
-Definition chk_iter (b : backend) (guarded : bool) (mm sm : store) (start : key)
+Definition chk_iter (b : backend) (mm sm : store) (start : key)
     (end_ : option key) (rv : bool) (iops : list (iop * ires)) : verdict :=
   let LS := spec_list sm start end_ rv in
-  chk_iops b guarded sm start (spec_end start end_) rv LS
-           (it_open b mm start end_ rv) None iops.
+  chk_iops rv LS (it_open b mm start end_ rv) None iops.
 
 (** fold over the history: model state, spec state, verdict so far *)
-Fixpoint chk_ops (b : backend) (guarded : bool) (mm sm : store) (ops : list op) : verdict :=
+Fixpoint chk_ops (b : backend) (mm sm : store) (ops : list op) : verdict :=
   match ops with
   | [] => ok_verdict
   | o :: tl =>
@@ -107,9 +77,9 @@ Fixpoint chk_ops (b : backend) (guarded : bool) (mm sm : store) (ops : list op) 
         | OBatch ws => (db_batch b mm ws, spec_batch sm ws, ok_verdict)
         | OGet k r => (mm, sm, mk_verdict (gres_eqb (gres_of (db_get mm k)) r)
                                           (gres_eqb (gres_of (spec_get sm k)) r))
-        | OIter start end_ rv iops => (mm, sm, chk_iter b guarded mm sm start end_ rv iops)
+        | OIter start end_ rv iops => (mm, sm, chk_iter b mm sm start end_ rv iops)
         end in
-      match chk_ops b guarded mm' sm' tl with
+      match chk_ops b mm' sm' tl with
       | (m2, s2, c2) =>
           (* the code of the FIRST spec divergence counts *)
           (m1 && m2, s1 && s2, if s1 then c2 else c1)
@@ -118,5 +88,5 @@ Fixpoint chk_ops (b : backend) (guarded : bool) (mm sm : store) (ops : list op) 
 
 Definition check_case (c : case) : verdict :=
   match c with
-  | Case b guarded ops => chk_ops b guarded [] [] ops
+  | Case b ops => chk_ops b [] [] ops
   end.
